@@ -413,6 +413,7 @@ type FuncContract struct {
 	HasModifies bool
 	Loops      map[int]*LoopContract
 	Inline     bool
+	InlineIn   []string // package path suffixes whose call sites inline the body instead of using the contract
 	Assumed    bool // contract taken on trust: not verified, listed in evidence
 	Pure       bool // no heap writes, no allocation visible to the caller
 	NoOverflow bool
@@ -492,7 +493,7 @@ type ContractFile struct {
 
 var clauseKW = map[string]bool{"immutable": true, "mapval": true, "global": true, "func": true, "spec": true, "uf": true, "lemma": true, "axiom": true,
 	"staterec": true, "props": true, "requires": true, "ensures": true, "panics": true, "panicsif": true, "modifies": true, "loop": true,
-	"inline": true, "assumed": true, "pure": true, "nooverflow": true, "maypanic": true, "nopaniccheck": true, "nonilcheck": true, "nolocks": true, "strictpanics": true, "splitreturns": true, "deadreturn": true,
+	"inline": true, "inlinein": true, "assumed": true, "pure": true, "nooverflow": true, "maypanic": true, "nopaniccheck": true, "nonilcheck": true, "nolocks": true, "strictpanics": true, "splitreturns": true, "deadreturn": true,
 	"split": true, "excuse": true, "makebound": true, "recspec": true, "induct": true, "datainv": true}
 
 var labelRe = regexp.MustCompile(`^([A-Za-z_][A-Za-z0-9_]*):\s+(.*)$`)
@@ -792,6 +793,10 @@ func parseContractFile(path, pkg string) (*ContractFile, error) {
 				}
 			case "inline":
 				cur.Inline = true
+			case "inlinein":
+				// seen through (like inline) at call sites in the named packages, used by
+				// contract everywhere else; the contract itself is verified as usual
+				cur.InlineIn = append(cur.InlineIn, strings.Fields(rest)...)
 			case "assumed":
 				cur.Assumed = true
 			case "pure":
